@@ -826,8 +826,13 @@ func genTuple(r intner, name string, i int) []string {
 			t[0] = "runtime.context().kill"
 		case strings.HasPrefix(name, "runtime.context()<mt>") || name == "runtime.contextdue" || name == "runtime.stopcontext":
 			t[0] = "runtime.context()"
-		case i < 2:
-			t[0] = pick(r, hostilePaths) // the first two tuples always lead with a path
+		}
+	}
+	if i < 2 && !strings.Contains(name, "<mt>") {
+		// the first two tuples are (path) and (path, path) / (path, mode)
+		t[0] = pick(r, hostilePaths)
+		if i == 1 && r.Intn(3) > 0 {
+			t[1] = pick(r, hostilePaths)
 		}
 	}
 	return t
